@@ -1,5 +1,5 @@
 (* P_C18.v — property theorems for C18 only. *)
-From ZT Require Import Base Restore RestoreFacts RestorePhases.
+From ZT Require Import Base Restore RestoreFacts RestorePhases RestoreTagged.
 
 (* For every subset and order of active features (each saving what it finds and restoring it in the finally clause of
    Runner.run) and every test phase that itself gives back what it found — whether it ends normally or by an exception —
@@ -63,3 +63,15 @@ Theorem C18_history_field_managed_in_every_run : forall h f,
   Forall (fun rp => In f (managed (fst rp))) h -> forall g, gget (runs h g) f = gget g f.
 Proof. exact history_managed_everywhere. Qed.
 Print Assumptions C18_history_field_managed_in_every_run.
+
+(* The same schedule with every write undone by the value that very write saved (run4): faithful also when two features write one
+   field — and there the schedule is NOT restoring, which is why disjointness is a hypothesis (and is evaluated on every case). *)
+Theorem C18_overlapping_writes_refuted : exists fs g f,
+  disjoint_writes fs = false /\ In f (fields3 fs) /\ gget (run4 fs (fun x => x) g) f <> gget g f.
+Proof. exact overlapping_writes_are_not_restored. Qed.
+Print Assumptions C18_overlapping_writes_refuted.
+
+Theorem C18_managed_state_restored_by_own_saved_values : forall fs phase g f, disjoint_writes fs = true -> In f (fields3 fs) ->
+  gget (run4 fs phase g) f = gget g f.
+Proof. exact run4_managed_restored. Qed.
+Print Assumptions C18_managed_state_restored_by_own_saved_values.
